@@ -92,6 +92,10 @@ def check_hash(pid, tier, replay=None):
                               match={"family": key, "monitor": "correspondence"})
         if r.get("sample") and len(chk.samples) < 8:
             chk.samples.append({"family": key, "ops": r["sample"]})
+    if pid == "C01" and tier == "thorough":
+        # streams crossing 2^29 bytes (the 64-bit bit-length field's upper word) on every family
+        big_res, big_bytes = big_sweep(chk, [0])
+        chk.cov["big_streams"] = {"runs": len(big_res), "bytes_hashed_by_implementation": big_bytes}
     chk.cov["correspondence"] = {"calls": total_ops, "families": fam_ops, "input_histogram": hist,
                                  "rejected_submits": sum(r.get("rejected", 0) for r in results)}
     chk.cov["evaluations"] = total_ops
@@ -128,7 +132,7 @@ def check_aes(pid, tier, replay=None):
     if replay:
         rp = json.load(open(replay))
         a = rp["args"]
-        r = aescheck.run_one(drv, a[0], a[1], int(a[2]), int(a[3]), int(a[4]))
+        r = aescheck.run_one(drv, a[0], a[1], int(a[2]), int(a[3]), int(a[4]), env=rp.get("env") or None)
         bad = [m for m in r["monitors"] if any(p in m for p in prefixes)] or [d for d in r["diffs"] if d["op"].split()[0] in kinds]
         print("replay: monitors=%s diffs=%d" % (r["monitors"][:3], len(r["diffs"])))
         return 1 if bad else 0
@@ -138,9 +142,15 @@ def check_aes(pid, tier, replay=None):
         nops, maxlen, seeds = 6000, 70000, [chk.seed * 100 + k for k in range(4)]
     jobs = [(w, f, s, nops, maxlen) for w, fams in whats.items() for f in fams for s in seeds]
     results = aescheck.sweep(drv, jobs)
+    if pid == "C07":
+        # counter-carry sweep: in message k the long update starts after k mod 256 blocks (every residue of the
+        # 8-bit counter-overflow shortcut of the kernels), with and without a carried partial block
+        rounds = 1 if tier == "quick" else 4
+        sj = [("gcm", f, s * 31 + 7, 1400 * rounds, 3000) for f in whats["gcm"] for s in seeds]
+        results += aescheck.sweep(drv, sj, env={"VERIF_GCM_SWEEP": "1"})
     total, hist, fam_ops = 0, {}, {}
     for r in results:
-        key = "%s/%s" % (r["what"], r["fam"])
+        key = "%s/%s" % (r["what"], r["fam"]) + ("/carry-sweep" if r.get("env") else "")
         total += r["ops"]
         fam_ops[key] = fam_ops.get(key, 0) + r["ops"]
         for k, v in r["hist"].items():
@@ -155,7 +165,7 @@ def check_aes(pid, tier, replay=None):
             lo, hi, best = 1, int(r["args"][3]), r
             while lo < hi and not r.get("crash"):
                 mid = (lo + hi) // 2
-                rr = aescheck.run_one(drv, r["what"], r["fam"], int(r["args"][2]), mid, int(r["args"][4]))
+                rr = aescheck.run_one(drv, r["what"], r["fam"], int(r["args"][2]), mid, int(r["args"][4]), env=r.get("env") or None)
                 bad = [m for m in rr["monitors"] if any(p in m for p in prefixes)] or [d for d in rr["diffs"] if d["op"].split()[0] in kinds]
                 if bad:
                     hi, best = mid, rr
@@ -166,13 +176,13 @@ def check_aes(pid, tier, replay=None):
             if mine2:
                 what = mine2[0].split()[1] if len(mine2[0].split()) > 1 else mine2[0]
                 chk.violation("%s in %s" % (what, key),
-                              {"kind": "input", "family": key, "args": best["args"], "monitor": mine2[:3],
+                              {"kind": "input", "family": key, "args": best["args"], "env": best.get("env", {}), "monitor": mine2[:3],
                                "failing_op": (d2[0] if d2 else None), "minimized": True},
                               match={"family": key, "monitor": what})
             else:
                 # implementation differs from the Lean spec/model on a concrete input: that input is the replay
                 chk.violation("output differs from the Lean specification in %s: %s" % (key, d2[0]["op"] if d2 else "?"),
-                              {"kind": "input", "family": key, "args": best["args"], "failing_op": d2[0] if d2 else None,
+                              {"kind": "input", "family": key, "args": best["args"], "env": best.get("env", {}), "failing_op": d2[0] if d2 else None,
                                "note": "OpenSSL monitor did not flag this op: suspect the model first", "minimized": True},
                               match={"family": key, "monitor": "spec-diff"})
         if r.get("sample") and len(chk.samples) < 8:
@@ -598,18 +608,11 @@ def check_c14(pid, tier, replay=None):
     return chk.finish(level="proof", rule="every AES family entry point over seeded length classes; capture after return")
 
 
-def check_c15(pid, tier, replay=None):
-    """big totals: every family really hashes a stream crossing 2^29 (quick) / 2^32 / 2^32+2^29 (thorough)"""
+def big_sweep(chk, modes, replay=None):
+    """every family hashes one stream per crossing mode; per-line correspondence with the model + OpenSSL monitor"""
     import subprocess
     from concurrent.futures import ThreadPoolExecutor
-    chk = vlib.Check(pid, tier)
-    thms = ["IsalVerif.HashMB.C15", "IsalVerif.HashMB.C15_stream_length", "IsalVerif.HashMB.C15_bitlen",
-            "IsalVerif.HashMB.C15_pack_fits", "IsalVerif.HashMB.C15_pack_order", "IsalVerif.HashMB.C01"]
-    for name, detail in vlib.lean_obligations(chk, "IsalVerif.Props.C15", thms, extra_targets=["isal_model"]):
-        chk.violation("Lean obligation no longer checks: %s" % name,
-                      {"kind": "obligation", "obligation": name, "detail": detail}, no_input=True)
     drv = vlib.harness_bin("drv_hash_big")
-    modes = [0] if tier == "quick" else [0, 1, 2]
     if replay:
         rp = json.load(open(replay))
         modes = [int(rp["args"][3])]
@@ -665,6 +668,21 @@ def check_c15(pid, tier, replay=None):
                           no_input=True, match={"family": key, "monitor": "correspondence"})
         if len(chk.samples) < 4 and il:
             chk.samples.append({"family": key, "mode": mode, "ops": open(ops).read().split("\n")[1:4], "last": il[-1][:100]})
+    return impl_res, total_bytes
+
+
+def check_c15(pid, tier, replay=None):
+    """big totals: every family really hashes a stream crossing 2^29 (quick) / 2^32 / 2^32+2^29 (thorough)"""
+    import subprocess
+    from concurrent.futures import ThreadPoolExecutor
+    chk = vlib.Check(pid, tier)
+    thms = ["IsalVerif.HashMB.C15", "IsalVerif.HashMB.C15_stream_length", "IsalVerif.HashMB.C15_bitlen",
+            "IsalVerif.HashMB.C15_pack_fits", "IsalVerif.HashMB.C15_pack_order", "IsalVerif.HashMB.C01"]
+    for name, detail in vlib.lean_obligations(chk, "IsalVerif.Props.C15", thms, extra_targets=["isal_model"]):
+        chk.violation("Lean obligation no longer checks: %s" % name,
+                      {"kind": "obligation", "obligation": name, "detail": detail}, no_input=True)
+    modes = [0] if tier == "quick" else [0, 1, 2]
+    impl_res, total_bytes = big_sweep(chk, modes, replay)
     chk.cov["evaluations"] = len(impl_res)
     chk.cov["distinct_nontrivial"] = len(impl_res)
     chk.cov["bytes_hashed_by_implementation"] = total_bytes
